@@ -6,7 +6,8 @@
     Events: [EvDeliver] (delivery callback), [EvTx]/[EvFrags] (bundle handed to the CL whole / as
     fragments), [EvReport]/[EvReportFrags] (status report handed to the CL), [EvSendFail]. *)
 From Coq Require Import NArith List Bool.
-From DTN Require Import Gen.ReportTable Model.BpAgent Proofs.BpAgentProofs.
+From Coq Require Import String.
+From DTN Require Import Gen.ReportTable Gen.Chain Model.BpAgent Proofs.BpAgentProofs.
 Import ListNotations.
 Local Open Scope N_scope.
 
@@ -14,7 +15,7 @@ Local Open Scope N_scope.
     at most one processing with any effect per identity. *)
 Theorem C10_at_most_once :
   forall (matches : N -> eid -> bool) (hist : list bundle) (a : agent) (i : ident),
-    (length (acts_on i (snd (run matches a hist))) <= 1)%nat.
+    (List.length (acts_on i (snd (run matches a hist))) <= 1)%nat.
 Proof. exact at_most_once. Qed.
 Print Assumptions C10_at_most_once.
 
@@ -81,6 +82,19 @@ Theorem C10_ident_inj :
 Proof. exact ident_inj. Qed.
 Print Assumptions C10_ident_inj.
 
+(** The chain-step orders found in the source (Gen/Chain.v), stably sorted as Agent.__init__ does, give
+    the step sequence the model follows. *)
+Theorem C10_chain_order :
+  chain_ids Gen.Chain.rx_steps =
+    [("admin", "_rx_route"); ("sand", "_rx_route"); ("safe", "_rx_route"); ("agent", "_do_rx_step");
+     ("fragment", "_reassemble"); ("bpsec", "_verify_bcb"); ("bpsec", "_verify_bib");
+     ("admin", "_recv_bundle"); ("sand", "_recv_bundle"); ("safe", "_recv_bundle")]%string
+  /\ chain_ids Gen.Chain.tx_steps =
+    [("sand", "_tx_route"); ("agent", "_do_tx_step"); ("bpsec", "_apply_bib"); ("bpsec", "_apply_bcb");
+     ("fragment", "_create")]%string.
+Proof. exact chain_order. Qed.
+Print Assumptions C10_chain_order.
+
 (** ---- non-vacuity: concrete inputs satisfying the hypotheses, evaluated ---- *)
 
 (* accepted, not local, first of two matching routes is 'forward' and the second 'deliver': forwarded *)
@@ -103,7 +117,7 @@ Example C10_at_most_once_example :
   let a := w_agent [(0, AFwd)] [w_rpt_route; w_fwd_route] in
   let h := [w_bundle 1000 1 None; w_bundle 1000 1 None; w_bundle 1000 2 None;
             w_bundle 1000 1 (Some (0, 10)); w_bundle 1000 1 (Some (5, 10)); w_bundle 1000 1 (Some (0, 10))] in
-  map (fun i => length (acts_on i (snd (run w_matches a h))))
+  map (fun i => List.length (acts_on i (snd (run w_matches a h))))
       [ident_of (w_bundle 1000 1 None); ident_of (w_bundle 1000 2 None);
        ident_of (w_bundle 1000 1 (Some (0, 10))); ident_of (w_bundle 1000 1 (Some (5, 10)));
        ident_of (w_bundle 1000 3 None)]
